@@ -36,7 +36,7 @@ def gen_simulation(rs, n_rows=(24, 60), force_nn_pair=None, absent_arm=False):
             c["np"]["radius"] = 1.0  # small radius: empty neighbourhoods among the test rows
         if p in ("radius", "knn"):
             # different metrics for the neighbourhood bandits of one simulation (they share a distance cache)
-            choices = [m for m in METRICS if m not in used_metrics] or METRICS
+            choices = ([m for m in METRICS if m not in used_metrics] or METRICS) if rs.integers(2) else (used_metrics or METRICS)
             c["np"]["metric"] = gen.pick(rs, choices)
             used_metrics.append(c["np"]["metric"])
             if p == "knn":
